@@ -167,7 +167,7 @@ Print Assumptions every_call_is_a_stored_jobs_call.
     order of injectSenderIntoPayload, the order sender-then-contract of the suffix source, what
     feeds each SubmitLogicCall / Message field, the two payload guards of ScheduleNow, the
     duplicate guard coming first in AddNewJob, owner := creator, what the msg server and the
-    binding pass to the keeper, hex validation in unmarshalJob, that saveJob (called by AddNewJob
+    binding pass to the keeper, definition and payload decoded separately and hex validation in unmarshalJob, that saveJob (called by AddNewJob
     only) is the only writer of the jobs store, and the field list of types.Job that the model's
     [job] record covers (Permissions and Triggers are stored and compared byte-for-byte by the
     harness, no code reads them). *)
@@ -185,6 +185,7 @@ Theorem model_is_of_current_source :
      "ContractAddress := jcfg.ContractAddress";
      "ExecutionRequirements := types.SubmitLogicCall_ExecutionRequirements{ EnforceMEVRelay: jcfg.Requirements.EnforceMEVRelay, }"]%string /\
   Gen.C17.enqueue_args = ["jcfg.RefID"; "string(ci.GetSmartContractUniqueID())"]%string /\
+  Gen.C17.unmarshal_decodes = ["definition, &jobDefinition"; "payload, &jobPayload"]%string /\
   Gen.C17.unmarshal_validates_hex = true /\ Gen.C17.hex_validation_uses_decodestring = true /\
   Gen.C17.put_queue = "consensustypes.Queue( types.ConsensusTurnstoneMessage, xchainType, chainReferenceID, )"%string /\
   Gen.C17.put_message_fields =
@@ -212,6 +213,6 @@ Theorem model_is_of_current_source :
     ["ID"; "Owner"; "Routing"; "Definition"; "Payload"; "IsPayloadModifiable"; "Permissions";
      "Triggers"; "EnforceMEVRelay"]%string.
 Proof.
-  exact (conj eq_refl (conj eq_refl (conj eq_refl (conj eq_refl (conj eq_refl (conj eq_refl (conj eq_refl (conj eq_refl (conj eq_refl (conj eq_refl (conj eq_refl (conj eq_refl (conj eq_refl (conj eq_refl (conj eq_refl (conj eq_refl (conj eq_refl (conj eq_refl (conj eq_refl (conj eq_refl (conj eq_refl (conj eq_refl (conj eq_refl (conj eq_refl (eq_refl))))))))))))))))))))))))).
+  exact (conj eq_refl (conj eq_refl (conj eq_refl (conj eq_refl (conj eq_refl (conj eq_refl (conj eq_refl (conj eq_refl (conj eq_refl (conj eq_refl (conj eq_refl (conj eq_refl (conj eq_refl (conj eq_refl (conj eq_refl (conj eq_refl (conj eq_refl (conj eq_refl (conj eq_refl (conj eq_refl (conj eq_refl (conj eq_refl (conj eq_refl (conj eq_refl (conj eq_refl (eq_refl)))))))))))))))))))))))))).
 Qed.
 Print Assumptions model_is_of_current_source.
